@@ -228,7 +228,7 @@ class Query:
             body = self.text(axioms=axioms, enclosures=enclosures, extra=lemmas, uf_values=True)
             r = run_solver(body, timeout=timeout, solver=solver, label=self.label + (f"#cegar{rnd}" if rnd else ""), keep=keep)
             total += r.seconds
-            if r.status != "sat" or not r.model:
+            if r.status != "sat" or not r.model or cegar == 0:
                 r.seconds = total
                 return r
             new = self._refine(r.model)
